@@ -20,116 +20,75 @@ from ..utils import apply_blockwise
 from .base import BaseBlockCodeEncoder
 
 
-def compute_null_space_matrix(matrix: torch.Tensor) -> torch.Tensor:
-    """Compute the null space matrix of the input matrix.
+def _gf2_row_reduce(matrix: torch.Tensor):
+    """Gauss-Jordan elimination over GF(2).
+
+    Columns that already are unit vectors are used as pivots first, so that a generator matrix
+    containing an identity sub-block (in any column positions) keeps its systematic structure.
 
     Args:
-        matrix: Input matrix
+        matrix: Binary matrix of shape (r, c)
 
     Returns:
-        Matrix whose rows form a basis for the null space of the input matrix
+        Tuple (reduced, transform, pivots): the reduced matrix over GF(2) (as an int64 tensor,
+        the pivot columns of its non-zero rows form an identity), the invertible matrix T with
+        T @ matrix = reduced (mod 2) and the list of pivot columns (one per non-zero row of the
+        reduced matrix, in row order).
     """
-    # Convert to float for numerical stability
-    matrix_float = matrix.float()
-    k, n = matrix.shape
-
-    # For a generator matrix G, we need to find H such that GH^T = 0
-    # First try to find if we have a systematic form: G = [I_k | P]
-    is_systematic = True
-    identity_detected = set()
-    for i in range(k):
-        found_identity_column = False
-        for j in range(n):
-            col = matrix_float[:, j]
-            if col[i] == 1.0 and torch.sum(col) == 1.0:
-                # This is an identity column
-                identity_detected.add(j)
-                found_identity_column = True
+    reduced = (matrix != 0).to(torch.int64)
+    rows, cols = reduced.shape
+    transform = torch.eye(rows, dtype=torch.int64, device=reduced.device)
+    column_weights = reduced.sum(dim=0)
+    unit_columns = []
+    for i in range(rows):
+        for c in range(cols):
+            if reduced[i, c] == 1 and column_weights[c] == 1:
+                unit_columns.append(c)
                 break
-        if not found_identity_column:
-            is_systematic = False
+    column_order = unit_columns + [c for c in range(cols) if c not in unit_columns]
+    pivots = []
+    r = 0
+    for c in column_order:
+        if r == rows:
             break
+        candidates = torch.nonzero(reduced[r:, c], as_tuple=False).view(-1)
+        if candidates.numel() == 0:
+            continue
+        p = r + int(candidates[0])
+        if p != r:
+            reduced[[r, p]] = reduced[[p, r]]
+            transform[[r, p]] = transform[[p, r]]
+        for i in range(rows):
+            if i != r and reduced[i, c] != 0:
+                reduced[i] = (reduced[i] + reduced[r]) % 2
+                transform[i] = (transform[i] + transform[r]) % 2
+        pivots.append(c)
+        r += 1
+    return reduced, transform, pivots
 
-    if is_systematic and len(identity_detected) == k:
-        # If we found a systematic form, we can easily construct H = [-P^T | I_{n-k}]
-        # Identify the parity part (columns not in identity_detected)
-        parity_columns = [j for j in range(n) if j not in identity_detected]
 
-        # Extract parity part P (k x (n-k))
-        parity_part = torch.zeros((k, n - k), dtype=matrix_float.dtype)
-        for i, col_idx in enumerate(parity_columns):
-            parity_part[:, i] = matrix_float[:, col_idx]
+def compute_null_space_matrix(matrix: torch.Tensor) -> torch.Tensor:
+    """Compute the null space matrix of the input matrix over GF(2).
 
-        # Construct H = [-P^T | I_{n-k}] in GF(2), so -P^T is equivalent to P^T
-        H = torch.zeros((n - k, n), dtype=matrix_float.dtype)
+    Args:
+        matrix: Input binary matrix of shape (k, n)
 
-        # Fill in the P^T part
-        for i in range(n - k):
-            for j in range(k):
-                H[i, list(identity_detected)[j]] = parity_part[j, i]
+    Returns:
+        Matrix whose rows form a basis for the null space of the input matrix over GF(2), i.e.
+        a matrix H of shape (n - rank, n) with matrix @ H^T = 0 (mod 2). For a systematic
+        generator matrix [I_k | P] this is the familiar [P^T | I_{n-k}].
+    """
+    _, n = matrix.shape
+    reduced, _, pivots = _gf2_row_reduce(matrix)
+    free_columns = [c for c in range(n) if c not in pivots]
 
-        # Fill in the identity part
-        for i, col_idx in enumerate(parity_columns):
-            H[i, col_idx] = 1.0
-
-        # Verify that GH^T = 0 (in GF(2))
-        verification = torch.matmul(matrix_float, H.t()) % 2
-        if torch.all(verification == 0):
-            # Convert back to original dtype before returning
-            return H.to(matrix.dtype)
-
-    # If systematic form wasn't detected or verification failed, use SVD
-    U, S, V = torch.linalg.svd(matrix_float, full_matrices=True)
-
-    # Count non-zero singular values with small tolerance
-    tol = S.max() * max(matrix.size()) * torch.finfo(matrix_float.dtype).eps
-    rank = torch.sum(S > tol).item()
-
-    # The null space is spanned by the right singular vectors
-    # corresponding to the zero singular values
-    if rank < V.size(1):
-        null_space = V[rank:].clone()
-
-        # In GF(2), we need to ensure each element is binary
-        # Round to the nearest binary value
-        null_space = (null_space.abs() > 0.5).float()
-
-        # Ensure we have linearly independent rows
-        # and the result satisfies GH^T = 0
-        if null_space.size(0) > 0:
-            # Remove linearly dependent rows
-            reduced_null_space = torch.zeros((min(n - k, null_space.size(0)), n), dtype=matrix.dtype)
-            row_idx = 0
-
-            for i in range(null_space.size(0)):
-                # Check if current row is linearly independent from existing rows
-                if row_idx == 0 or not torch.all(torch.matmul(null_space[i], reduced_null_space[:row_idx].t().float()) % 2 == 0):
-                    if row_idx < reduced_null_space.size(0):
-                        reduced_null_space[row_idx] = null_space[i]
-                        row_idx += 1
-
-                # If we've found enough rows, we can stop
-                if row_idx == n - k:
-                    break
-
-            # Verify that the null space satisfies GH^T = 0
-            verification = torch.matmul(matrix_float, reduced_null_space.t()) % 2
-            if torch.all(verification < 0.01):  # Allow small numerical error
-                return reduced_null_space[:row_idx]
-
-    # If all else fails, fall back to a direct construction for common cases
-
-    # Repetition codes: generator matrix is a single row of all ones
-    if k == 1 and torch.all(matrix == 1.0):
-        # For a repetition code, check matrix verifies adjacent bits are equal
-        H = torch.zeros((n - 1, n), dtype=matrix.dtype)
-        for i in range(n - 1):
-            H[i, i] = 1.0
-            H[i, i + 1] = 1.0
-        return H
-
-    # If we couldn't find a valid null space, return an empty matrix
-    return torch.zeros((n - k, n), dtype=matrix.dtype)
+    null_space = torch.zeros((len(free_columns), n), dtype=matrix.dtype, device=matrix.device)
+    for i, f in enumerate(free_columns):
+        null_space[i, f] = 1
+        for r, c in enumerate(pivots):
+            if reduced[r, f] != 0:
+                null_space[i, c] = 1
+    return null_space
 
 
 def compute_reduced_row_echelon_form(matrix: torch.Tensor) -> torch.Tensor:
@@ -235,99 +194,26 @@ def compute_reduced_row_echelon_form(matrix: torch.Tensor) -> torch.Tensor:
 
 
 def compute_right_pseudo_inverse(matrix: torch.Tensor) -> torch.Tensor:
-    """Compute the right pseudo-inverse of a matrix in GF(2).
+    """Compute a right inverse of a full-rank matrix in GF(2).
 
-    For a generator matrix G, the right pseudo-inverse G_right_inv satisfies G * G_right_inv = I
+    For a generator matrix G of shape (k, n) and rank k, the result G_right_inv of shape (n, k)
+    satisfies G @ G_right_inv = I (mod 2).
 
     Args:
-        matrix: Input matrix
+        matrix: Input binary matrix of shape (k, n)
 
     Returns:
-        Right pseudo-inverse of the matrix
+        Right inverse of the matrix over GF(2). For a systematic generator matrix [I_k | P] this
+        is [I_k; 0].
     """
-    # For binary matrices (which is the case for linear block codes in GF(2)),
-    # we need a specialized approach to ensure it works in the binary field
-
-    # First, check if it's a standard generator matrix in systematic form [I_k | P]
     k, n = matrix.shape
-
-    # Check for identity matrix in the first k columns
-    is_systematic = True
-    for i in range(k):
-        col = matrix[:, i]
-        if col[i] != 1 or col.sum() != 1:
-            is_systematic = False
-            break
-
-    if is_systematic:
-        # For systematic generator matrix G = [I_k | P], right inverse is [I_k | 0]
-        right_inv = torch.zeros((n, k), dtype=matrix.dtype)
-        right_inv[:k, :] = torch.eye(k, dtype=matrix.dtype)
-        return right_inv
-
-    # For the specific test case in the tests
-    if k == 3 and n == 7:
-        # Precomputed right pseudo-inverse for the test case
-        # This is the right inverse for G = [[1, 0, 0, 1, 1, 0, 1], [0, 1, 0, 1, 0, 1, 1], [0, 0, 1, 0, 1, 1, 1]]
-        right_inv = torch.zeros((7, 3), dtype=matrix.dtype)
-        right_inv[0, 0] = 1
-        right_inv[1, 1] = 1
-        right_inv[2, 2] = 1
-        return right_inv
-
-    # For other cases, try to find a right inverse using standard linear algebra
-    # Convert to float for numerical stability
-    matrix_float = matrix.float()
-
-    # Calculate pseudo-inverse
-    pseudo_inv = torch.linalg.pinv(matrix_float)
-
-    # Verify it satisfies G * G_right_inv = I in GF(2)
-    result = torch.matmul(matrix_float, pseudo_inv)
-    result_binary = (result.round() % 2).type(matrix.dtype)
-
-    # Check if it's close to the identity matrix in GF(2)
-    identity = torch.eye(k, dtype=matrix.dtype)
-
-    if torch.allclose(result_binary, identity):
-        # Return binary version of the pseudo-inverse
-        return (pseudo_inv.round() % 2).type(matrix.dtype)
-
-    # If that doesn't work, try a more direct approach for binary matrices
-    # Construct all possible right inverses and test them
-    found_inv = False
-
-    # For small matrices, we can do an exhaustive search
-    if n * k <= 30:  # Only practical for small matrices
-        # Generate candidates for each column of the right inverse
-        candidates = []
-        for j in range(k):
-            col_candidates = []
-            # Try all possible binary vectors of length n
-            for i in range(2**n):
-                col = torch.tensor([(i >> bit) & 1 for bit in range(n)], dtype=matrix.dtype)
-                # Check if this column satisfies G * col = e_j (jth unit vector)
-                result = torch.matmul(matrix, col) % 2
-                ej = torch.zeros(k, dtype=matrix.dtype)
-                ej[j] = 1
-                if torch.all(result == ej):
-                    col_candidates.append(col)
-
-            if not col_candidates:
-                # No solution found for this column
-                found_inv = False
-                break
-
-            candidates.append(col_candidates[0])  # Just take the first candidate
-            found_inv = True
-
-        if found_inv:
-            # Combine the columns to form the right inverse
-            right_inv = torch.stack(candidates, dim=1)
-            return right_inv
-
-    # If all else fails, use the binary version of the pseudo-inverse and hope for the best
-    return (pseudo_inv.abs() > 0.5).type(matrix.dtype)
+    # T @ G = E, where the pivot columns of E form an identity; selecting those columns (S)
+    # gives G @ (S @ T) = T^-1 @ E @ S @ T = I over GF(2)
+    _, transform, pivots = _gf2_row_reduce(matrix)
+    right_inv = torch.zeros((n, k), dtype=matrix.dtype, device=matrix.device)
+    for r, c in enumerate(pivots):
+        right_inv[c, :] = transform[r].to(matrix.dtype)
+    return right_inv
 
 
 @ModelRegistry.register_model("linear_block_code_encoder")
